@@ -120,6 +120,8 @@ def check_ranges(p, mrange, vrange, answers, seed_arg):
     with tape.Tape(answers=list(answers), uniform_menu=(0.0, 0.5, 1 - 2 ** -53)) as tp:
         try:
             m = sempler.LGANM(W, tuple(mrange), tuple(vrange), random_state=seed_arg)
+        except tape.TapeError:
+            raise
         except Exception as e:
             return [("lganm:ranges-raises", "LGANM(W, %s, %s) raised %r" % (mrange, vrange, e))], tp
     out = []
@@ -137,7 +139,7 @@ def check_ranges(p, mrange, vrange, answers, seed_arg):
             if not (min(lo, hi) - 1e-12 <= v <= max(lo, hi) + 1e-12):
                 out.append(("lganm:ranges-outside", "%s: %s[%d] = %r outside [%s, %s]" % (desc, name, j, v, lo, hi)))
                 continue
-            owners = [k for k, c in enumerate(cells) if k not in used and abs(lo + (hi - lo) * c["value"] - v) <= 1e-12 and (c["lo"], c["hi"]) == (float(lo), float(hi))]
+            owners = [k for k, c in enumerate(cells) if k not in used and abs(c["value"] - v) <= 1e-12 and (c["lo"], c["hi"]) == (float(lo), float(hi))]
             if not owners:
                 out.append(("lganm:ranges-not-own-cell", "%s: %s[%d] = %r is not lo+(hi-lo)*u of a fresh uniform cell drawn for that range" % (desc, name, j, v)))
             else:
@@ -147,24 +149,26 @@ def check_ranges(p, mrange, vrange, answers, seed_arg):
 
 def run_ranges(p, acc):
     from mc.env import tape
-    menu = 3
     for mrange in RANGES:
         for vrange in ((0, 1), (0.5, 2), (1, 1)):
             for seed_arg in (None, 0):
-                # complete product over the 2p uniform cells
-                for answers in itertools.product(range(menu), repeat=2 * p):
-                    fails, tp = check_ranges(p, mrange, vrange, answers, seed_arg)
+                # complete product over the uniform cells, by stateless DFS over the answer tree
+                def run(prefix):
+                    fails, tp = check_ranges(p, mrange, vrange, prefix, seed_arg)
                     acc.states += 1
                     acc.transitions += len(tp.trace)
                     acc.traces += 1
                     acc.extra["range_executions"] += 1
                     if tp.unmodelled:
                         acc.undecided += 1
-                    if any(answers):
+                    if any(prefix):
                         acc.nontrivial += 1
-                    acc.outcome(["ranges", p, mrange, vrange, answers])
+                    acc.outcome(["ranges", p, mrange, vrange, [c.get("value") for c in tp.trace]])
                     for sig, msg in fails:
-                        acc.fail("ranges", {"p": p, "mrange": list(mrange), "vrange": list(vrange), "answers": list(answers), "seed_arg": seed_arg}, sig, msg)
+                        acc.fail("ranges", {"p": p, "mrange": list(mrange), "vrange": list(vrange), "answers": list(prefix), "seed_arg": seed_arg}, sig, msg)
+                    return tp.points
+                nexec, capped = tape.explore(run)
+                assert not capped
 
 
 def run_unit(unit):
